@@ -4,8 +4,9 @@
  * The value byte identifies the entry: 0x10 * (child + 1) + index.
  *
  * VP_MODE 0: keys pairwise DISTINCT across all children (as internal keys in
- *   a real DB always are: unique sequence numbers).  VP_K symbolic operations
- *   among first/last/seek(symbolic)/next/prev (next/prev only while valid),
+ *   a real DB always are: unique sequence numbers).  VP_K steps, the operation
+ *   of step k chosen symbolically inside the set VP_OS<k> (C07/ops.h) among
+ *   first/last/seek(symbolic)/next/prev (next/prev only while valid),
  *   including every direction change; after each one valid/key/value equal the
  *   sorted-map cursor over the union (C07/ref.h) and status() is the first
  *   non-OK child status in child order (statuses symbolic).
@@ -104,27 +105,27 @@ vp_apply(int op, int mask, const uint8_t *t) {
   /* mask (a constant per step) removes the excluded operations from the
      program, not only from the models */
   if ((mask & (1 << VP_OP_FIRST)) && op == VP_OP_FIRST) {
-      ldb_mergeiter_first(vp_mi);
-      vp_cur = vp_ref_first(&vp_ref);
+    ldb_mergeiter_first(vp_mi);
+    vp_cur = vp_ref_first(&vp_ref);
   } else if ((mask & (1 << VP_OP_LAST)) && op == VP_OP_LAST) {
-      ldb_mergeiter_last(vp_mi);
-      vp_cur = vp_ref_last(&vp_ref);
+    ldb_mergeiter_last(vp_mi);
+    vp_cur = vp_ref_last(&vp_ref);
   } else if ((mask & (1 << VP_OP_SEEK)) && op == VP_OP_SEEK) {
-      target.data = (uint8_t *)t;
-      target.size = 1;
-      target.alloc = 0;
-      ldb_mergeiter_seek(vp_mi, &target);
-      vp_cur = vp_ref_seek_ge(&vp_ref, t, 1);
+    target.data = (uint8_t *)t;
+    target.size = 1;
+    target.alloc = 0;
+    ldb_mergeiter_seek(vp_mi, &target);
+    vp_cur = vp_ref_seek_ge(&vp_ref, t, 1);
   } else if ((mask & (1 << VP_OP_NEXT)) && op == VP_OP_NEXT) {
-      if (vp_cur < 0)
-        return; /* REQUIRES: valid */
-      ldb_mergeiter_next(vp_mi);
-      vp_cur = vp_ref_next(&vp_ref, vp_cur);
+    if (vp_cur < 0)
+      return; /* REQUIRES: valid */
+    ldb_mergeiter_next(vp_mi);
+    vp_cur = vp_ref_next(&vp_ref, vp_cur);
   } else if ((mask & (1 << VP_OP_PREV)) && op == VP_OP_PREV) {
-      if (vp_cur < 0)
-        return;
-      ldb_mergeiter_prev(vp_mi);
-      vp_cur = vp_ref_prev(&vp_ref, vp_cur);
+    if (vp_cur < 0)
+      return;
+    ldb_mergeiter_prev(vp_mi);
+    vp_cur = vp_ref_prev(&vp_ref, vp_cur);
   } else {
     return;
   }
